@@ -50,6 +50,10 @@ def cases(tier, seed):
                              land=str(rng.choice(["quad", "sphere", "l1", "rosen", "bowl4"])), where=str(rng.choice(["in", "onb"], p=[0.7, 0.3])),
                              mode=mode, options=opts, sigma=float(10 ** rng.uniform(-3, 1)),
                              max_fun_evals=int(rng.choice([60, 80, 120, 150])))
+        if rng.random() < 0.3:
+            # other valid spellings of the returned value: numpy scalars of other precisions, integer-valued targets (counts),
+            # 0-d and size-1 arrays
+            spec["ret_spelling"] = str(rng.choice(["np32", "int", "npint", "0d", "arr1", "np64"]))
         out.append({"spec": spec})
     out += C.option_variation_slice("C05", tier, seed, modes=("auto", "declared", "he"))
     return out
